@@ -51,10 +51,24 @@ def ascii_diff(want, got) -> list[str]:
 
 # ================================================================================================ models
 NEUTRAL = {"constraint_interval": "none", "relation_interval": "none", "weight": "none", "penalty": "no", "groups": "one",
-           "scale": "unset", "irf": "plain", "extra": "none"}
+           "scale": "unset", "irf": "plain", "extra": "none", "compartments": "words"}
 CHOICES = {"constraint_interval": ["none", "list", "single"], "relation_interval": ["none", "list", "single"],
            "weight": ["none", "plain", "intervals"], "penalty": ["no", "yes"], "groups": ["one", "two"], "scale": ["unset", "set"],
-           "irf": ["plain", "shift-scale", "dispersion", "multi"], "extra": ["none", "artifact-baseline", "oscillation", "sequential", "spectral-global", "pfid", "clp-guide"]}
+           "irf": ["plain", "shift-scale", "dispersion", "multi"], "extra": ["none", "artifact-baseline", "oscillation", "sequential", "spectral-global", "pfid", "clp-guide"],
+           "compartments": ["words", "numeric", "mixed"]}      # compartment labels are text, also when they look like numbers ('1', '2')
+RENAME = {"words": {}, "numeric": {"s1": "1", "s2": "2", "s3": "3"}, "mixed": {"s1": "1", "s3": "x3"}}
+
+
+def _rename(x, m):
+    if isinstance(x, dict):
+        return {_rename(k, m): _rename(v, m) for k, v in x.items()}
+    if isinstance(x, list):
+        return [_rename(v, m) for v in x]
+    if isinstance(x, tuple):
+        return tuple(_rename(v, m) for v in x)
+    if isinstance(x, str):
+        return m.get(x, x)
+    return x
 
 
 def model_spec(feat: dict):
@@ -155,6 +169,9 @@ def model_spec(feat: dict):
         spec["clp_penalties"] = [{"type": "equal_area", "source": "s1", "source_intervals": [(600, 631)], "target": "s2",
                                   "target_intervals": [(615.5, 662), (600, 605)], "parameter": "pen.ratio", "weight": 0.1}]
         pars["pen"] = [["ratio", 1.2]]
+    ren = RENAME[feat.get("compartments", "words")]
+    if ren:
+        spec = _rename(spec, ren)      # parameter labels (pars) are not compartments and stay
     return spec, pars, labels
 
 
